@@ -4,9 +4,9 @@ P=$1; H=$2; U=$3; T=$4; R=${5:-5}
 cd /verif
 ./check $P --only $H --keep >/dev/null 2>&1 &
 PID=$!
-for i in $(seq 1 200); do D=$(ls -d /root/.verif-scratch/$P-$PID 2>/dev/null); pgrep -x cbmc >/dev/null && break; sleep 1; done
-sleep 3
-kill $PID 2>/dev/null; pkill -x cbmc
+for i in $(seq 1 300); do D=$(ls -d /root/.verif-scratch/$P-$PID 2>/dev/null); pgrep -f "cbmc .*$P-$PID/" >/dev/null && break; sleep 1; done
+sleep 2
+kill $PID 2>/dev/null; pkill -f "cbmc .*$P-$PID/"
 cd $D
 F=$(goto-instrument --list-goto-functions goto/$H.goto 2>/dev/null | grep "area::Area" | grep -E "Clone>::clone|drop_glue|clone_one|clone_to_uninit" | sed -E "s/.*\/\* (.*) \*\//\1:$R/" | paste -sd,)
 timeout $T cbmc --no-malloc-may-fail --no-undefined-shift-check --no-signed-overflow-check --nan-check --no-self-loops-to-assumptions --no-pointer-primitive-check --object-bits 16 --unwinding-assertions --sat-solver cadical --slice-formula --unwind $U ${F:+--unwindset "$F"} --verbosity 9 goto/$H.goto > prof.log 2>&1
